@@ -155,6 +155,11 @@ pub struct SCase {
     pub astar: Option<Option<f64>>,
     /// weight_factor given in the query (overrides the configured one)
     pub query_wf: Option<f64>,
+    /// build the cost model through `CostModelService::build` (the application's path):
+    /// (weights from query, vehicle rates from query, aggregation from query, ignore_unknown_weights);
+    /// whatever does not come from the query comes from the service's configured values, and the
+    /// configured values that ARE overridden are decoys. None = `CostModel::new` directly.
+    pub svc: Option<(bool, bool, bool, bool)>,
 }
 
 pub struct Built {
@@ -333,14 +338,53 @@ pub fn build(c: &SCase) -> Result<Built, String> {
     let weights: HashMap<String, f64> = c.weights.iter().cloned().collect();
     let vrates: HashMap<String, VehicleCostRate> = c.vrates.iter().map(|(n, v)| (n.clone(), vr_real(v))).collect();
     let nrates: HashMap<String, NetworkCostRate> = c.nrates.iter().map(|(n, v)| (n.clone(), nr_real(v))).collect();
-    let cost_model = CostModel::new(
-        Arc::new(weights),
-        Arc::new(vrates),
-        Arc::new(nrates),
-        if c.agg_mul { CostAggregation::Mul } else { CostAggregation::Sum },
-        state_model.clone(),
-    )
-    .map_err(|e| format!("cost: {}", e))?;
+    let agg = if c.agg_mul { CostAggregation::Mul } else { CostAggregation::Sum };
+    let mut svc_query = serde_json::Map::new();
+    let cost_model = match c.svc {
+        None => CostModel::new(Arc::new(weights), Arc::new(vrates), Arc::new(nrates), agg, state_model.clone())
+            .map_err(|e| format!("cost: {}", e))?,
+        Some((qw, qv, qa, ignore_unknown)) => {
+            // query overrides; a Combined rate cannot be written as JSON (internally tagged sequence)
+            let vr_json: Option<serde_json::Value> = if qv { serde_json::to_value(&vrates).ok() } else { None };
+            let qv = qv && vr_json.is_some();
+            let mut weights_cfg = weights.clone();
+            let mut weights_q = weights.clone();
+            if ignore_unknown {
+                // a weight for a feature the state model does not have is dropped silently
+                weights_cfg.insert("no_such_feature".into(), 3.0);
+                weights_q.insert("no_such_feature".into(), 3.0);
+            }
+            if qw {
+                svc_query.insert("weights".into(), serde_json::json!(weights_q));
+                for (_, w) in weights_cfg.iter_mut() {
+                    *w += 1.0; // decoy
+                }
+            }
+            let mut vrates_cfg = vrates.clone();
+            if qv {
+                svc_query.insert("vehicle_rates".into(), vr_json.unwrap());
+                for (_, v) in vrates_cfg.iter_mut() {
+                    *v = VehicleCostRate::Factor { factor: 2.0 }; // decoy
+                }
+            }
+            let agg_cfg = if qa {
+                svc_query.insert("cost_aggregation".into(), serde_json::json!(if c.agg_mul { "mul" } else { "sum" }));
+                if c.agg_mul { CostAggregation::Sum } else { CostAggregation::Mul } // decoy
+            } else {
+                agg
+            };
+            let service = routee_compass::app::compass::config::cost_model::cost_model_service::CostModelService {
+                vehicle_rates: Arc::new(vrates_cfg),
+                network_rates: Arc::new(nrates),
+                weights: Arc::new(weights_cfg),
+                cost_aggregation: agg_cfg,
+                ignore_unknown_weights: ignore_unknown,
+            };
+            service
+                .build(&serde_json::Value::Object(svc_query.clone()), state_model.clone())
+                .map_err(|e| format!("cost: {}", e))?
+        }
+    };
     // the vectors CostModel::new derives, in state-model order (independent re-derivation)
     let mut cost_weights = vec![];
     let mut cost_vrates = vec![];
@@ -351,7 +395,7 @@ pub fn build(c: &SCase) -> Result<Built, String> {
         cost_nrates.push(c.nrates.iter().find(|(n, _)| n == name).map(|(_, v)| v.clone()).unwrap_or(NR::Zero));
     }
     // query: road classes, vehicle parameters, weight factor
-    let mut query = serde_json::json!({});
+    let mut query = serde_json::Value::Object(svc_query);
     let mut inner: Vec<Arc<dyn FrontierModel>> = vec![];
     let mut cut: Option<HashSet<EdgeId>> = None;
     for f in &c.frontier {
@@ -1218,6 +1262,7 @@ pub fn gen_case(rng: &mut Rng, opts: &GenOpts) -> SCase {
         target,
         astar,
         query_wf,
+        svc: if rng.chance(1, 2) { Some((rng.chance(1, 2), rng.chance(1, 2), rng.chance(1, 2), rng.chance(1, 3))) } else { None },
     }
 }
 
@@ -1254,6 +1299,12 @@ pub fn describe(c: &SCase) -> Vec<&'static str> {
     }
     if c.agg_mul {
         v.push("agg_mul");
+    }
+    if let Some((qw, qv, qa, _)) = c.svc {
+        v.push("cost_model_service");
+        if qw || qv || qa {
+            v.push("cost_model_query_override");
+        }
     }
     v
 }
